@@ -3,8 +3,8 @@
 From GV.Model Require Import SEval.
 From GV.Proofs Require Import StatusProps EvalLaws CompareProps NegationProps TableProps.
 From GV.Generated Require Import EvalTables.
-From GV.Model Require Import ValueParse OpParse.
-From GV.Proofs Require Import ValueSpellProps OpParseProps.
+From GV.Model Require Import ValueParse QueryParse OpParse ClauseParse.
+From GV.Proofs Require Import ValueSpellProps OpParseProps ClauseParseProps.
 
 (* `not X exists` == `X !exists`, likewise empty and the is_* tests: same status, same
    final state, for every query, all/some, every callee evaluator, every state *)
@@ -97,3 +97,17 @@ Theorem C03_negated_operator_is_read_as_negated : forall o t, is_keyword_spellin
   value_cmp (w +++ (b +++ (t +++ rest))) = POk (o, true) rest /\ value_cmp (String "!" (t +++ rest)) = POk (o, true) rest.
 Proof. exact negated_keyword_operator. Qed.
 Print Assumptions C03_negated_operator_is_read_as_negated.
+
+(* ---- one access clause (Model/ClauseParse.v = parser.rs clause_with_map) ---- *)
+
+(* a clause whose text starts (after layout) with `not ` / `NOT ` / `!` is parsed with its negation flag set, whatever the
+   query, the operator, the right-hand side and the message are *)
+Theorem C03_leading_negation_is_recorded : forall rv n s r c rest,
+  not_kw (skip_ws_comments s) = Some r -> clause rv n s = POk c rest -> pc_neg c = true.
+Proof. exact leading_negation_is_recorded. Qed.
+Print Assumptions C03_leading_negation_is_recorded.
+
+Theorem C03_no_negation_is_invented : forall rv n s c rest,
+  not_kw (skip_ws_comments s) = None -> clause rv n s = POk c rest -> pc_neg c = false.
+Proof. exact no_negation_is_invented. Qed.
+Print Assumptions C03_no_negation_is_invented.
